@@ -561,11 +561,13 @@ def coq_obs(tree):
         r = [q(math.exp(x)) for x in pay.log_r.flatten()]
         recs.append("(%d, %s, %s, [%s], [%s])" % (inv[node], ph, nat_list(own), "; ".join(p), "; ".join(r)))
     rootr = [q(math.exp(x)) for x in tree.data_log_likelihood.flatten()]
-    return "(mkObs [%s] %s [%s] %s)" % (
+    names = "[" + "; ".join("(%d, %d)" % (h, int(n)) for h, n in sorted(hm.items())) + "]" if hm else "(@nil (nat * nat))"
+    return "(mkObs [%s] %s [%s] %s %s)" % (
         "; ".join(recs) if recs else "",
         nat_list(sorted(d.idx for d in tree.outliers)),
         "; ".join(rootr),
         nat_list(sorted(int(n) for n in tree.nodes)),
+        names,
     )
 
 
@@ -588,6 +590,7 @@ def coq_case_item(case):
     """(header, item): the Coq boolean comparing the model's trace with the real tree after every edit."""
     data, spec, hist = case["data"], case["spec"], case["hist"]
     tree = build_tree(spec, data)
+    start = coq_obs(tree)
     obs = []
     for e in hist:
         try:
@@ -596,9 +599,9 @@ def coq_case_item(case):
         except Exception:
             obs.append("None")
             break
-    item = "match build %d %d %s %s with Some t0 => chk_trace (htrace %d %d [%s] t0) [%s] | None => false end" % (
-        case["ns"], case["grid"], coq_spec_nodes(spec[0]), dps(spec[1]), case["ns"], case["grid"],
-        "; ".join(coq_hedit(e) for e in hist), "; ".join(obs))
+    item = "match build %d %d %s %s with Some t0 => chk_tree t0 %s && hcheck %d %d [%s] [%s] (resync (o_names %s) t0) | None => false end" % (
+        case["ns"], case["grid"], coq_spec_nodes(spec[0]), dps(spec[1]), start, case["ns"], case["grid"],
+        "; ".join(coq_hedit(e) for e in hist), "; ".join(obs), start)
     return item
 
 
